@@ -308,7 +308,24 @@ class Normalizer:
                         return h, None
                     if "classmethod" in decos:
                         return h, f.value
+        # a new method of another class of this module, called on a plain reference (``self._x[k].helper(...)``): bound
+        # by its name when that name is defined once in the module and exists nowhere in the pinned vocabulary
+        if isinstance(f, ast.Attribute) and not (isinstance(f.value, ast.Name) and f.value.id in ("self", "cls")):
+            cands = [(k, h) for k, h in self.helpers.items() if k[1] == f.attr and k[0] is not None]
+            if len(cands) == 1 and f.attr not in self._all_pinned_method_names():
+                h = cands[0][1]
+                decos = [U(d) for d in h.decorator_list]
+                recv_ok = all(isinstance(x, (ast.Name, ast.Attribute, ast.Subscript, ast.Constant, ast.Load, ast.Tuple)) for x in ast.walk(f.value))
+                if recv_ok and "staticmethod" not in decos and "classmethod" not in decos and "property" not in decos:
+                    return h, f.value
         return None, None
+
+    def _all_pinned_method_names(self):
+        out = set()
+        for mod in PINNED.values():
+            for q in mod.get("functions", {}):
+                out.add(q.split(".")[-1].split("@")[0])
+        return out
 
     def _inline_expr_calls(self, node, cls_name, depth=0):
         """Replace calls to expression helpers inside ``node`` (in place, bottom-up)."""
@@ -633,9 +650,10 @@ class Normalizer:
                 if name in roots:
                     continue
                 stable = True
-                # simple, conservative ordering test: statements textually after the alias in the same function
+                # simple, conservative ordering test: statements textually after the alias and not after its last use
+                last_use = max([getattr(u, "lineno", 0) for u in ast.walk(func) if isinstance(u, ast.Name) and u.id == name and isinstance(u.ctx, ast.Load)] + [st.lineno])
                 for n in ast.walk(func):
-                    if isinstance(n, ast.Name) and isinstance(n.ctx, ast.Store) and n.id in roots and getattr(n, "lineno", 0) > st.lineno:
+                    if isinstance(n, ast.Name) and isinstance(n.ctx, ast.Store) and n.id in roots and st.lineno < getattr(n, "lineno", 0) <= last_use:
                         # a loop variable re-bound by the enclosing loop header (before the alias in each iteration) is fine
                         stable = False
                 if not stable:
@@ -646,7 +664,7 @@ class Normalizer:
                         if isinstance(p, ast.For):
                             enclosing_targets |= {x.id for x in ast.walk(p.target) if isinstance(x, ast.Name)}
                         p = par.get(id(p))
-                    rebinds = {n.id for n in ast.walk(func) if isinstance(n, ast.Name) and isinstance(n.ctx, ast.Store) and n.id in roots and getattr(n, "lineno", 0) > st.lineno}
+                    rebinds = {n.id for n in ast.walk(func) if isinstance(n, ast.Name) and isinstance(n.ctx, ast.Store) and n.id in roots and st.lineno < getattr(n, "lineno", 0) <= last_use}
                     if not rebinds <= enclosing_targets:
                         continue
                 # all uses must come after the definition (line order) and the alias must not be used as an assignment target base
@@ -689,10 +707,25 @@ class Normalizer:
         def const_like(e):
             return all(isinstance(x, (ast.Constant, ast.Tuple, ast.List, ast.Attribute, ast.Name, ast.UnaryOp, ast.Load, ast.USub)) for x in ast.walk(e))
 
-        def rows_of(it):
+        def local_table(name, loop):
+            """A new local bound exactly once, by the statement just before the loop, to a tuple/list display."""
+            if name in pinned_locals:
+                return None
+            stores = [n for n in ast.walk(func) if isinstance(n, ast.Name) and n.id == name and isinstance(n.ctx, (ast.Store, ast.Del))]
+            if len(stores) != 1:
+                return None
+            for blk in [func.body] + [getattr(n, f) for n in ast.walk(func) for f in ("body", "orelse", "finalbody") if isinstance(getattr(n, f, None), list)]:
+                if loop in blk:
+                    i = blk.index(loop)
+                    if i > 0 and isinstance(blk[i - 1], ast.Assign) and len(blk[i - 1].targets) == 1 and isinstance(blk[i - 1].targets[0], ast.Name) \
+                            and blk[i - 1].targets[0].id == name and isinstance(blk[i - 1].value, (ast.Tuple, ast.List)):
+                        return blk[i - 1].value
+            return None
+
+        def rows_of(it, loop=None):
             e = it
             if isinstance(e, ast.Name):
-                e = norm._module_literal(e.id)
+                e = norm._module_literal(e.id) or (local_table(e.id, loop) if loop is not None else None)
             if isinstance(e, (ast.Tuple, ast.List)) and 0 < len(e.elts) <= 24 and all(const_like(x) for x in e.elts):
                 return list(e.elts)
             return None
@@ -728,7 +761,7 @@ class Normalizer:
                     out.append(st)
                     continue
                 tnames = [n.id for n in ast.walk(st.target) if isinstance(n, ast.Name)]
-                rows = rows_of(st.iter)
+                rows = rows_of(st.iter, st)
                 if rows is None or not tnames or set(tnames) & pinned_locals:
                     out.append(st)
                     continue
@@ -737,6 +770,10 @@ class Normalizer:
                     continue
                 body_stores = {n.id for b in st.body for n in ast.walk(b) if isinstance(n, ast.Name) and isinstance(n.ctx, (ast.Store, ast.Del))}
                 if body_stores & set(tnames):
+                    out.append(st)
+                    continue
+                row_names = {n.id for r in (rows or []) for n in ast.walk(r) if isinstance(n, ast.Name)}
+                if body_stores & row_names:
                     out.append(st)
                     continue
                 temps = body_stores - pinned_locals
@@ -847,6 +884,8 @@ class Normalizer:
                 for i, b in enumerate(n.body):
                     n.body[i] = self._inline_expr_calls(b, cls_name)
             pinned_locals = set(self.pinned_funcs.get(q, [])) if q in self.pinned_funcs else set()
+            if len(self.report["helpers"]) > n_helpers_before:
+                self._renumber(n)  # line order = execution order, which the alias pass relies on
             if q in self.pinned_funcs:
                 self._propagate_aliases(n, pinned_locals)
             if len(self.report["helpers"]) > n_helpers_before:
